@@ -466,7 +466,9 @@ void profile_cli(Gen &g) {
 	int rounds = r.range(1, 3); int nfile = 0;
 	for (int k = 0; k < rounds; k++) {
 		int ne = r.range(0, 3); for (int e = 0; e < ne; e++) p.ops.push_back(g.gen_edit(0));
-		Op w = g.mk(0, "write"); g.seti(w, "o", r.below(3)); g.set(w, "fmt", r.chance(1, 2) ? "LP" : "MPS"); g.set(w, "via", "path"); g.set(w, "path", strf("in%d", nfile++)); g.seti(w, "comp", r.below(3)); p.ops.push_back(w);
+		Op w = g.mk(0, "write"); g.seti(w, "o", r.below(3)); g.set(w, "fmt", r.chance(1, 2) ? "LP" : "MPS"); g.set(w, "via", "path"); g.set(w, "path", strf("in%d", nfile++)); g.seti(w, "comp", r.below(3));
+		if (r.chance(1, 4) && g.ok("cli:foreign")) { w.kind = "foreign"; g.seti(w, "style", r.below(1000)); w.a.erase("via"); }   // input from another producer: the text denotes the model it was rendered from
+		p.ops.push_back(w);
 		if (g.faults && r.chance(1, 3)) { Op dm = g.mk(0, "damage"); g.seti(dm, "pick", r.below(8)); g.set(dm, "kind", std::vector<std::string>{"torn", "flip", "token", "zero_tail", "block_dup"}[r.below(5)]); g.seti(dm, "at", r.below(100000)); g.seti(dm, "len", r.below(56)); g.seti(dm, "bit", r.below(8)); p.ops.push_back(dm); }
 		int runs = r.range(1, 2);
 		for (int t = 0; t < runs; t++) {
